@@ -18,13 +18,16 @@
     §3 `join_by_index`, `threads_schedule_free`   `threads` of the report           (source b)
     §4 `json_registers_order_free`   registers of a frame, text and JSON            (source a)
     §5 `stats_order_free`            per-module symbol statistics of the JSON report (source b)
+    §6 `cert_order_free`             module certificates taken from the evil JSON   (source a)
 
   For each, the NEGATION for the order-consuming variant (the code before its `fix:` commit, or
   the mutation the check must catch) is proved with a concrete witness, so the theorems are not
   vacuous and document what the repairs repaired. §5 needs a hypothesis — modules with one file
   leaf name have one symbol outcome — and `stats_order_dependent` proves that without it the
   report DOES depend on the completion order: that is the genuine residual defect F16
-  (`known_findings.d/C13.json`), reproduced on the real code by engine `det`.
+  (`known_findings.d/C13.json`), reproduced on the real code by engine `det`. §6 likewise needs
+  "no module is listed under two certificates"; `cert_order_dependent` is the second residual
+  defect (found by this check): a dual-signed module's `cert_subject` depends on the hash seed.
 
   The models are the ones the compiled driver executes; engine `det` compares them on every run
   with the real renderer / walker / processor, fed with the REAL iteration orders of the real
@@ -421,6 +424,93 @@ example :
     (∀ k, k ∈ [0, 1] → ∀ k', k' ∈ [0, 1] → (mods k).leaf = (mods k').leaf → k = k') ∧
     statsReport mods [0, 1] [0, 1] = statsReport mods [1, 0] [0, 1] ∧
     statsReport mods [0, 1] [0, 1] = [(false, true, false), (false, true, true)] := by
+  decide
+
+/-! ## 6. "across repeated runs": module certificates from the evil JSON (NEW finding) -/
+
+theorem certMap_eq (iter : CertInfo) : certMap iter = (certPairs iter).reverse := by
+  unfold certMap
+  have : ∀ (l : List (List Nat × List Nat)) init, l.foldl (fun m kv => kv :: m) init = l.reverse ++ init := by
+    intro l
+    induction l with
+    | nil => intro init; rfl
+    | cons k ks ih => intro init; simp [List.foldl_cons, ih]
+  simp [this]
+
+theorem mem_certPairs_perm {iter iter' : CertInfo} (hp : iter.Perm iter') (e : List Nat × List Nat) :
+    e ∈ certPairs iter ↔ e ∈ certPairs iter' := by
+  unfold certPairs
+  simp only [List.mem_flatMap]
+  constructor
+  · rintro ⟨a, ha, h⟩; exact ⟨a, hp.mem_iff.1 ha, h⟩
+  · rintro ⟨a, ha, h⟩; exact ⟨a, hp.mem_iff.2 ha, h⟩
+
+theorem certLookup_eq_none {m : List (List Nat × List Nat)} {name : List Nat} :
+    certLookup m name = none ↔ ∀ e, e ∈ m → e.1 ≠ name := by
+  simp [certLookup, List.find?_eq_none]
+
+theorem certLookup_eq_some {m : List (List Nat × List Nat)} {name c : List Nat}
+    (h : certLookup m name = some c) : (name, c) ∈ m := by
+  unfold certLookup at h
+  cases hf : m.find? (·.1 == name) with
+  | none => rw [hf] at h; cases h
+  | some e =>
+    rw [hf] at h
+    have hp := List.find?_some hf
+    have hm := List.mem_of_find?_eq_some hf
+    simp only [Option.map_some, Option.some.injEq] at h
+    simp only [beq_iff_eq] at hp
+    rw [← h, ← hp]
+    exact hm
+
+/-- **C13.6** `cert_order_free`: if no module is listed under two different certificates, the
+    certificate shown for every module is the same for every iteration order of the
+    `ModuleSignatureInfo` map. -/
+theorem cert_order_free (iter iter' : CertInfo) (shown : List (List Nat))
+    (huniq : ∀ e, e ∈ certPairs iter → ∀ e', e' ∈ certPairs iter → e.1 = e'.1 → e.2 = e'.2)
+    (hp : iter.Perm iter') :
+    certReport iter' shown = certReport iter shown := by
+  unfold certReport
+  apply List.map_congr_left
+  intro name _
+  cases h : certLookup (certMap iter) name with
+  | none =>
+    rw [certLookup_eq_none] at h ⊢
+    intro e he
+    rw [certMap_eq, List.mem_reverse] at he
+    apply h e
+    rw [certMap_eq, List.mem_reverse]
+    exact (mem_certPairs_perm hp e).2 he
+  | some c =>
+    have hk := certLookup_eq_some h
+    rw [certMap_eq, List.mem_reverse] at hk
+    cases h' : certLookup (certMap iter') name with
+    | none =>
+      rw [certLookup_eq_none] at h'
+      refine absurd rfl (h' (name, c) ?_)
+      rw [certMap_eq, List.mem_reverse]
+      exact (mem_certPairs_perm hp _).1 hk
+    | some c' =>
+      have hk' := certLookup_eq_some h'
+      rw [certMap_eq, List.mem_reverse] at hk'
+      have := huniq _ hk _ ((mem_certPairs_perm hp _).2 hk') rfl
+      simp only at this
+      rw [this]
+
+/-- **NEW finding** `cert_order_dependent`: a module listed under two certificates (a dual-signed
+    binary) gets whichever certificate the map iterates LAST — the report depends on the hash seed. -/
+theorem cert_order_dependent :
+    ∃ (iter iter' : CertInfo) (shown : List (List Nat)), (iter.map (·.1)).Nodup ∧ iter.Perm iter' ∧
+      certReport iter' shown ≠ certReport iter shown :=
+  ⟨[([65], [nXdll]), ([66], [nXdll, nYdll])], [([66], [nXdll, nYdll]), ([65], [nXdll])], [nXdll, nYdll],
+   by decide, List.Perm.swap _ _ _, by decide⟩
+
+/-- non-vacuity of `cert_order_free`: two certificates, disjoint module lists, an unknown module. -/
+example :
+    let iter : CertInfo := [([65], [nXdll]), ([66], [nYdll])]
+    (∀ e, e ∈ certPairs iter → ∀ e', e' ∈ certPairs iter → e.1 = e'.1 → e.2 = e'.2) ∧
+    certReport iter [nXdll, nYdll, nBogus] = [some [65], some [66], none] ∧
+    certReport [([66], [nYdll]), ([65], [nXdll])] [nXdll, nYdll, nBogus] = [some [65], some [66], none] := by
   decide
 
 end MdModel.Det
